@@ -96,4 +96,59 @@ theorem onset_precision_recall_f1_eq_model (ri ei : List Ival) (tol : Rat) (stri
         Mir.C04.GenGlue.f_measure_hits _ _ _ (length_ne_zero hr) (length_ne_zero he)]
       rfl
 
+/-! ### `match_note_offsets`, `offset_precision_recall_f1` -/
+
+/-- the offset hit matrix on validated reference intervals -/
+theorem offset_matrix (ri ei : List Ival) (ratio minTol : Rat) (strict : Bool) (u : Unit)
+    (hv : validateIntervals1 ri = .ok u) :
+    PyTR.cmpCol (if strict = true then PyTR.Cmp.less else PyTR.Cmp.lessEqual)
+        (PyTR.around (PyTR.absM (PyTR.subtractOuter (PyTR.col1 ri) (PyTR.col1 ei))) 4)
+        (PyTR.maximumV (PyTR.scaleV ratio (ri.map fun r => absR (r.2 - r.1))) minTol) =
+      .ok ⟨ri.length, ei.length, ri.map fun r => ei.map (offsetHit ratio minTol strict r)⟩ := by
+  unfold PyTR.cmpCol
+  simp only [PyTR.around, PyTR.absM, PyTR.subtractOuter, PyTR.col1, PyM.Mat.map, List.map_map, Function.comp_def,
+    List.length_map, PyTR.maximumV, PyTR.scaleV, and_self, if_true, PyTR.zipWith_map_map]
+  congr 2
+  rw [PyTR.zip_self, List.map_map]
+  apply List.map_congr_left
+  intro r hr
+  have hp := PyTR.validateIntervals1_pos hv r hr
+  simp only [Function.comp_def, PyTR.cmp_apply, PyTR.roundDec_four, offsetHit, offsetTol, hp]
+  try rfl
+
+/-- **`match_note_offsets` as translated = the hand model** (`matchNoteOffsets`), for ALL inputs: the `ValueError` of
+    `util.intervals_to_durations` on invalid reference intervals, rounded offset distances against
+    `max(offset_ratio · duration, offset_min_tolerance)` per reference note, then the shared matching tail -/
+theorem match_note_offsets_eq_model (ri ei : List Ival) (ratio minTol : Rat) (strict : Bool) :
+    Mir.Gen.transcription.match_note_offsets ri ei ratio minTol strict = matchNoteOffsets ri ei ratio minTol strict := by
+  unfold Mir.Gen.transcription.match_note_offsets matchNoteOffsets PyTR.intervals_to_durations
+  cases hv : validateIntervals1 ri with
+  | error x => rfl
+  | ok u =>
+    simp only [ok_bind, pure_bind, offset_matrix ri ei ratio minTol strict u hv, PyTR.whereM_zip, PyTR.truePairs_outer,
+      offsets_loop_eq, foldl_graphStep, pyMatching_ok]
+    rfl
+
+/-- **`offset_precision_recall_f1` as translated = the hand model** (`offsetPRF`), for ALL inputs -/
+theorem offset_precision_recall_f1_eq_model (ri ei : List Ival) (ratio minTol : Rat) (strict : Bool) (beta : Rat) :
+    Mir.Gen.transcription.offset_precision_recall_f1 ri ei ratio minTol strict beta =
+      offsetPRF ri ei ratio minTol strict beta := by
+  unfold Mir.Gen.transcription.offset_precision_recall_f1 offsetPRF PyTR.validate_intervals
+  cases hv : validateIntervals ri ei with
+  | error x => rfl
+  | ok u =>
+    simp only [ok_bind, PyM.len, decide_eq_true_eq, Bool.or_eq_true, List.length_eq_zero_iff, List.isEmpty_iff]
+    by_cases hE : ri = [] ∨ ei = []
+    · rw [if_pos hE, if_pos hE]
+    · rw [if_neg hE, if_neg hE]
+      have hr : ri ≠ [] := fun h => hE (Or.inl h)
+      have he : ei ≠ [] := fun h => hE (Or.inr h)
+      rw [match_note_offsets_eq_model]
+      cases hm : matchNoteOffsets ri ei ratio minTol strict with
+      | error x => rfl
+      | ok m =>
+        simp only [ok_bind, Mir.C04.GenGlue.divF_ok (lenq_ne_zero hr), Mir.C04.GenGlue.divF_ok (lenq_ne_zero he),
+          Mir.C04.GenGlue.f_measure_hits _ _ _ (length_ne_zero hr) (length_ne_zero he)]
+        rfl
+
 end Mir.C05.GenTr
